@@ -3,6 +3,7 @@ import Refine.Lemmas.MatrixDiag2
 import Refine.Lemmas.MatrixRot0
 import Refine.Lemmas.MatrixFun
 import Refine.Lemmas.MatrixInv
+import Refine.Lemmas.MatrixQL
 
 /-!
   C16 — the symmetric-matrix kernel of `ref_matrix.c` (model: `Refine/Model/Matrix.lean`).
@@ -70,6 +71,55 @@ theorem diagM_rot0 (m : M6 ℝ) :
     Orthonormal (rot0 m).d ∧ tridiagForm (rot0 m).d (rot0 m).e0 (rot0 m).e1 = m ∧
     (rot0 m).e2 = 0 ∧ (rot0 m).f = 0 ∧ (rot0 m).tst1 = 0 :=
   ⟨(rot0_spec m).1, (rot0_spec m).2, rot0_e2 m, rot0_f m, rot0_tst1 m⟩
+
+/-- every vector update of the QL iteration is a plane rotation `(c, s)`, `c = p/r`, `s = e[i]/r`,
+    `r = sqrt(p² + e[i]²)` with `c² + s² = 1` (the sub-diagonal entries inside the active block are
+    non-zero: invariant of the loop), so after any number of sweeps — all iterations, both settings of
+    `relativeConvergence` — a successful `ref_matrix_diag_m` returns orthonormal eigenvectors -/
+theorem diagM_orthonormal (m : M6 ℝ) (d : Eig12 ℝ) (h : diagM m = .ok d) : Orthonormal d :=
+  diagM_orthonormal' m d h
+
+/-- one plane rotation of two neighbouring vectors keeps an orthonormal system orthonormal -/
+theorem rotVec_keeps_orthonormal (i : Nat) (c s : ℝ) (h : c * c + s * s = 1) {d : Eig12 ℝ}
+    (ho : Orthonormal d) : Orthonormal (rotVec i c s d) := rotVec_orthonormal i c s h ho
+
+/-- over ℝ the search for a small sub-diagonal entry never runs off the end (`e[2] = 0` … more precisely:
+    a run that returns REF_SUCCESS never went through the `ub` branch, by definition of `rowStep`) and
+    the only error statuses of `diagM` on (finite) real input are `failure` (30 sweeps) and `ub` -/
+theorem diagM_error_kinds (m : M6 ℝ) (e : Err) (h : diagM m = .error e) : e = .failure ∨ e = .ub := by
+  have hloop : ∀ (fuel l mm : Nat) (st : QL ℝ) (e : Err), qlLoop fuel l mm st = .error e → e = .failure := by
+    intro fuel l mm
+    induction fuel with
+    | zero => intro st e h; unfold qlLoop at h; injection h with h; exact h.symm
+    | succ n ih =>
+      intro st e h
+      unfold qlLoop at h
+      dsimp only at h
+      split_ifs at h
+      exact ih _ _ h
+  have hrow : ∀ l (st : QL ℝ) (e : Err), rowStep l st = .error e → e = .failure ∨ e = .ub := by
+    intro l st e h
+    unfold rowStep at h
+    dsimp only at h
+    generalize (if Scalar.lt st.tst1 _ = true then _ else st : QL ℝ) = st1 at h
+    split_ifs at h
+    · injection h with h; right; exact h.symm
+    · split at h
+      · exact absurd h (by simp)
+      · rename_i e' hq
+        injection h with h
+        subst h
+        left
+        exact hloop _ _ _ _ _ hq
+  unfold diagM at h
+  simp only [M6.allFinite, isFinite_eq, Bool.and_self, Bool.not_true, Bool.false_eq_true, if_false] at h
+  split at h
+  · rename_i e1 h1; injection h with h; subst h; exact hrow _ _ _ h1
+  split at h
+  · rename_i e2 h2; injection h with h; subst h; exact hrow _ _ _ h2
+  split at h
+  · rename_i e3 h3; injection h with h; subst h; exact hrow _ _ _ h3
+  · exact absurd h (by simp)
 
 /-! ### eigen systems, quadratic forms, functions of a matrix -/
 
